@@ -505,6 +505,8 @@ def workload(tier, seed):
         yield "cli", {"rseed": seed * 1000 + i, "count": 6}
     for i in range(8 if tier == "quick" else 200):
         yield "edited_intermediate", {"rseed": seed * 1000 + i, "count": 40}
+    for i in range(2 if tier == "quick" else 12):
+        yield "two_threads", {"rseed": seed * 1000 + i}
     for kind in ("xor", "xorcomp"):
         for k in ((13, 16, 17, 18) if tier == "quick" else range(12, 21)):
             yield "wide_gadget", {"kind": kind, "k": k, "rseed": seed}
@@ -587,6 +589,54 @@ def case_edited_intermediate(ctx, rseed, count):
             ctx.violation("%s:raises:%s" % (k2, type(U).__name__), "%s raised %r" % (label, U))
             continue
         judge(ctx, NT, clsT, k2, p2, U, "library-after-edits", label)
+
+
+def case_two_threads(ctx, rseed):
+    """Two transformations running at the same time in two threads of one process (short switch interval): each result
+    must be what the same call gives when it runs alone.  The library holds no lock, so this only asks that the
+    transformations share no scratch state."""
+    import sys
+    import threading
+    r = ctx.rng("c05threads", rseed)
+    N = 600
+    cls = [[(i % N) + 1] if i % 2 else [-((i % N) + 1)] for i in range(N)]
+    kinds = [("xor", [3]), ("maj", [3]), ("one", [3]), ("exact", [3, 2]), ("or", [2]), ("eq", [2]), ("xor", [2]), ("lift", [2])]
+    alone = {}
+    for kind, params in kinds:
+        st, T = ctx.call(apply_library, kind, params, build_input(N, cls))
+        if st == "ok":
+            alone[(kind, tuple(params))] = (T.number_of_variables(), [list(c) for c in T])
+    old = sys.getswitchinterval()
+    sys.setswitchinterval(1e-5)
+    try:
+        for _ in range(6):
+            pair = r.sample(sorted(alone), 2)
+            results = {}
+
+            def work(key):
+                try:
+                    T = apply_library(key[0], list(key[1]), build_input(N, cls))
+                    results[key] = (T.number_of_variables(), [list(c) for c in T])
+                except Exception as e:      # noqa: BLE001
+                    results[key] = e
+            threads = [threading.Thread(target=work, args=(k_,)) for k_ in pair]
+            for t in threads:
+                t.start()
+            for t in threads:
+                t.join(120)
+            ctx.count("pairs_of_concurrent_transformations")
+            for key in pair:
+                got = results.get(key)
+                label = "%s%r on %d unit clauses while %s%r runs in another thread" % (key[0], list(key[1]), N, [k_ for k_ in pair if k_ != key][0][0],
+                                                                                     list([k_ for k_ in pair if k_ != key][0][1]))
+                if isinstance(got, Exception) or got is None:
+                    ctx.violation("%s:concurrent:raises" % key[0], "%s: %r" % (label, got))
+                elif got != alone[key]:
+                    ctx.violation("%s:concurrent:another-formula" % key[0], "%s: %d variables / %d clauses, alone it gives %d / %d"
+                                  % (label, got[0], len(got[1]), alone[key][0], len(alone[key][1])))
+            ctx.judged(("threads", tuple(pair), rseed), nontrivial=True, sample={"concurrent": [list(map(str, k_)) for k_ in pair]})
+    finally:
+        sys.setswitchinterval(old)
 
 
 def case_wide_gadget(ctx, kind, k, rseed):
